@@ -40,6 +40,11 @@ KMOVAFF = "move/codes-without-target-affixes-unflushable"
 KREFREPR = "metaflush+reopen/reference-name-ending-in-dot-r-i-m-a"
 KAMB = "dirfile_standards/number-like-scalar-code-needs-version-8"
 KUNCLEAN = "rename/raw-field-in-compressed-fragment-unclean-db"
+KNOREVAL = "dirfile_standards/current-version-not-revalidated-after-later-changes"
+KSTALE = "dirfile_standards/version-cache-stale-after-hide-unhide-protect-affixes"
+KAFFPAR = "alter-affixes/parent-fragment-not-marked-modified"
+KORACLE = "dirfile_standards/accepted-nonconforming-version"
+KREF5 = "metaflush+reopen/reference-field-not-recorded-below-version-6"
 
 
 def hx(b):
@@ -615,6 +620,145 @@ def gen_xfrag_case(g, cid):
     return c
 
 
+SPEC_KINDS = [("RAW", "f RAW UINT8 1"), ("RAW", "f RAW COMPLEX64 1"), ("RAW", "f RAW INT64 1"), ("LINCOM", "f LINCOM 1 in 1 0"),
+              ("LINCOM", "f LINCOM 1 in 1;2 0"), ("LINTERP", "f LINTERP in tbl"), ("BIT", "f BIT in 1 1"), ("BIT", "f BIT in 1 4"),
+              ("SBIT", "f SBIT in 1 2"), ("MULTIPLY", "f MULTIPLY in in2"), ("DIVIDE", "f DIVIDE in in2"), ("INDIR", "f INDIR in in2"),
+              ("SINDIR", "f SINDIR in in2"), ("RECIP", "f RECIP in 1"), ("PHASE", "f PHASE in 1"), ("POLYNOM", "f POLYNOM in 1 2"),
+              ("WINDOW", "f WINDOW in in2 EQ 5"), ("MPLEX", "f MPLEX in in2 1 10"), ("CONST", "f CONST UINT8 1"),
+              ("CONST", "f CONST COMPLEX64 1;2"), ("CARRAY", "f CARRAY UINT8 1 2"), ("STRING", "f STRING v"), ("SARRAY", "f SARRAY a b")]
+
+
+def gen_history_cases():
+    """histories whose LAST metadata change is gd_add_spec / gd_madd_spec / gd_add / gd_alter_spec / gd_hide / ... followed
+    directly by gd_dirfile_standards(explicit version, EARLIEST, LATEST), with and without a cached version list
+    (an earlier gd_dirfile_standards(CURRENT)); every field type x every version boundary"""
+    out = []
+    n = [0]
+    base = "ADD RAW 0 - %s 001 1" % hx(b"base")
+
+    def mk(cmds):
+        c = Case("h%d" % n[0])
+        n[0] += 1
+        c.pretty = False
+        c.pure = False
+        c.cmds += ["OPEN 0"] + cmds
+        out.append(c)
+        return c
+    VERS = (5, 6, 7, 8, 9, 10, -3, -2)
+    for kind, line in SPEC_KINDS:
+        for cached in (False, True):
+            pre = [base] + (["STD -1"] if cached else [])
+            for v in VERS:
+                mk(pre + ["ADDSPEC %s 0" % hx(line.encode()), "STD %d" % v])
+                if kind != "RAW":
+                    mk(pre + ["MADDSPEC %s %s" % (hx(line.encode()), hx(b"base")), "STD %d" % v])
+    for v in VERS:
+        mk([base, "STD -1", "ALTERSPEC %s 0" % hx(b"base RAW COMPLEX64 1"), "STD %d" % v])
+        mk(["ADD CONST 0 - %s 001 1 0" % hx(b"c"), "STD -1", "ALTERSPEC %s 0" % hx(b"c CONST COMPLEX128 1;1"), "STD %d" % v])
+        mk([base, "ADDSPEC %s 0" % hx(b"b BIT base 1 1"), "STD -1", "ALTERSPEC %s 0" % hx(b"b BIT base 40 3"), "STD %d" % v])
+    # gd_add as the last change with a cached list
+    D1 = "%016x" % dbits(1.5)
+    IN, IN2 = hx(b"in"), hx(b"in2")
+    addk = ["ADD RAW 0 - %s 108 2", "ADD RAW 0 - %s 028 2", "ADD CONST 0 - %s 108 1 0", "ADD CONST 0 - %s 001 1 0", "ADD CARRAY 0 - %s 001 2 1 0 1 0",
+            "ADD DIVIDE 0 - %%s %s %s" % (IN, IN2), "ADD INDIR 0 - %%s %s %s" % (IN, IN2), "ADD RECIP 0 - %%s %s 0 %s 0" % (IN, D1),
+            "ADD PHASE 0 - %%s %s 5" % IN, "ADD POLYNOM 0 - %%s %s 2 0 %s 0 %s 0 %s 0" % (IN, D1, D1, D1), "ADD SBIT 0 - %%s %s 3 4" % IN,
+            "ADD WINDOW 0 - %%s %s %s 1 5" % (IN, IN2), "ADD MPLEX 0 - %%s %s %s 1 10" % (IN, IN2), "ADD STRING 0 - %%s %s" % hx(b"v"),
+            "ADD SARRAY 0 - %%s 2 %s %s" % (hx(b"a"), hx(b"b")), "ADD MULTIPLY 0 - %%s %s %s" % (IN, IN2)]
+    for kd in addk:
+        for v in VERS:
+            mk([base, "STD -1", kd % hx(b"f"), "STD %d" % v])
+            mk([base, "STD -1", kd % hx(b"f"), "ALIAS 0 - %s %s" % (hx(b"al"), hx(b"f")), "STD %d" % v])
+    return out
+
+
+def gen_known_history_cases():
+    """histories in the region of the listed version-cache / revalidation / affix findings"""
+    out = []
+    n = [0]
+
+    def mk(cmds):
+        c = Case("k%d" % n[0])
+        n[0] += 1
+        c.pretty = False
+        c.pure = False
+        c.cmds += ["OPEN 0"] + cmds
+        out.append(c)
+    cc = "ADD CONST 0 - %s 001 1 0" % hx(b"c")
+    for v in (6, 7, 8):
+        mk([cc, "STD -1", "HIDE %s" % hx(b"c"), "STD %d" % v])
+        mk([cc, "STD %d" % v, "ADD WINDOW 0 - %s %s %s 1 5" % (hx(b"w"), hx(b"in"), hx(b"in2"))])
+        mk([cc, "STD %d" % v, "ADDSPEC %s 0" % hx(b"s SARRAY a b")])
+        mk([cc, "STD %d" % v, "HIDE %s" % hx(b"c")])
+    mk(["INC 0 %s - %s -" % (hx(b"sub"), hx(b"p")), "ADD CONST 1 - %s 001 1 0" % hx(b"pc"), "MFLUSH", "ALTERAFFIX 1 %s %s" % (hx(b"q"), hx(b"s"))])
+    mk(["INC 0 %s %s - -" % (hx(b"sub"), hx(b"ns")), "ADD CONST 1 - %s 001 1 0" % hx(b"ns.c"), "MFLUSH", "NSALTER 1 %s" % hx(b"mm")])
+    mk(["INC 0 %s - - %s" % (hx(b"sub"), hx(b"s")), "ADD CONST 1 - %s 001 1 0" % hx(b"cs"), "MFLUSH", "ALTERAFFIX 1 - %s" % hx(b"t"), "ADD CONST 1 - %s 001 2 0" % hx(b"dt")])
+    return out
+
+
+MUTATING = ("ADD ", "ADDSPEC ", "MADDSPEC ", "ALTERSPEC ", "ALIAS ", "HIDE ", "UNHIDE ", "FRAGATTR ", "INC ", "RENAME ", "MOVE ", "DELETE ",
+            "ALTERAFFIX ", "NSALTER ", "PUTS ", "PUTC ", "REF ", "UNINCLUDE ")
+STALE_OPS = ("HIDE ", "UNHIDE ", "FRAGATTR ", "ALTERAFFIX ", "NSALTER ")
+
+
+def needed_version(lines, gates):
+    """the least Standards Version whose pedantic parser accepts this database (keywords, hidden flags, aliases, complex
+    data types, metafields, affixes, namespaces) -- from the parser gates the translator extracts"""
+    need = 0
+    why = ""
+    nfrag = 0
+    for l in lines:
+        t = l.split()
+        g_, w_ = 0, ""
+        if l.startswith("G "):
+            nfrag += 1
+            d_ = kv(t[2:])
+            if d_.get("ns") not in (".", "-", None):
+                g_, w_ = gates.get("NAMESPACE", 10), "a fragment namespace"
+            elif d_.get("px") != "-" or d_.get("sx") != "-":
+                g_, w_ = 9, "fragment affixes"
+            elif int(d_.get("prot", "0")) != 0 or int(d_.get("enc", "0"), 16) not in (0, 0x1000000):
+                g_, w_ = 6, "a /PROTECT or /ENCODING directive"
+            if nfrag > 1 and g_ < 3:
+                g_, w_ = 3, "an /INCLUDE directive"
+        elif l.startswith("F ") and " ALIAS " in l:
+            g_, w_ = gates.get("ALIAS", 9), "an alias"
+        elif l.startswith("F ") and len(t) > 2 and t[2].startswith("type="):
+            d_ = kv(t[2:])
+            k = ENTYPE.get(int(d_["type"], 16), "")
+            g_, w_ = gates.get(k, 0), "a %s field" % k
+            for key_ in ("dtype", "ctype"):
+                if key_ in d_ and int(d_[key_], 16) & 0x100 and g_ < 7:
+                    g_, w_ = 7, "a complex %s" % k
+            if d_.get("hidden") == "1" and g_ < gates.get("HIDDEN", 9):
+                g_, w_ = gates.get("HIDDEN", 9), "a hidden field"
+            if d_.get("meta") == "1" and g_ < 6:
+                g_, w_ = 6, "a metafield"
+        if g_ > need:
+            need, why = g_, w_
+    return need, why
+
+
+def history_key(c, ops, need):
+    """which listed finding (if any) explains that the database was flushed at a Standards Version below `need`"""
+    rc = {}
+    for o in ops:
+        rc.setdefault(int(o[0]), (int(o[1]), int(o[2])))
+    ok = lambda i: i in rc and rc[i][1] == 0 and rc[i][0] >= 0
+    last_std = None
+    for i, cmd in enumerate(c.cmds):
+        if cmd.startswith("STD ") and ok(i):
+            last_std = i
+    if last_std is None or c.dstd >= need:
+        return None
+    later = [cmd for i, cmd in enumerate(c.cmds) if i > last_std and cmd.startswith(MUTATING) and ok(i)]
+    if later:
+        return KNOREVAL
+    prev = [cmd for i, cmd in enumerate(c.cmds) if i < last_std and cmd.startswith(MUTATING) and ok(i)]
+    if prev and prev[-1].startswith(STALE_OPS):
+        return KSTALE
+    return KORACLE
+
+
 def gen_version_cases():
     """every kind of entry (and data type where _GD_FindVersion looks at it) alone in a database,
     hidden or not, with every Standards Version 5..10 requested before the flush; plus fragment
@@ -938,6 +1082,18 @@ def main():
     trans_problems = [l for l in tout.splitlines() if l.startswith("PROBLEM")]
     m = re.search(r"FLUSH_DIGITS (\d+)", tout)
     P = int(m.group(1)) if m else 15
+    gates = {}
+    try:
+        gtxt = open(os.path.join(V, "coq", "Gen", "Formats.v")).read()
+        for tab in ("parser_gate", "parser_directive_gate"):
+            mt = re.search(r"Definition %s : list \(string \* Z\) := \[(.*?)\]\." % tab, gtxt, re.S)
+            for k_, v_ in re.findall(r'\("(\w+)", (\d+)\)', mt.group(1) if mt else ""):
+                gates[k_] = int(v_)
+        mt = re.search(r"Definition parser_namespace_gate : Z := (\d+)", gtxt)
+        if mt:
+            gates["NAMESPACE"] = int(mt.group(1))
+    except OSError:
+        pass
     facts = {}
     for k_, v_ in re.findall(r"\b(INC_BLANK|NS_RULE|REPRZ|STRIP_GUARD|NAME_FLAG|INHERIT_RULE|TOK_ZERO|HIDDEN_SKIPS) (\d)", tout):
         facts[k_] = (v_ == "1")
@@ -951,6 +1107,7 @@ def main():
         "entry model covers one fragment without affixes/namespaces, Standards Versions >= 5, field codes without '.'; includes, affixes, aliases, hidden flags, metafields and fragment attributes are checked on the implementation only (snapshot before == after)",
     ]
     chk.assumptions += ["NaN payloads are not compared (NaNs are one class)",
+                        "a fragment written for Standards Version <= 4 cannot declare its version; the GD_PEDANTIC reopen is not compared there",
                         "a fragment written for Standards Version <= 5 cannot record its encoding (no /ENCODING directive); the encoding is not compared there",
                         "a scalar index -1 and the index 0 forced by the '<0>' disambiguation of number-like CONST names are the same index",
                         "a trailing '.z' (explicit no-representation suffix) added to the ambiguous one-character codes r,i,a,m is the same field code"]
@@ -975,6 +1132,8 @@ def main():
         cases.append(gen_case(g, "g%d" % i, hard, rich))
     vcases = gen_version_cases()
     cases += vcases
+    cases += gen_history_cases()
+    cases += gen_known_history_cases()
     for i in range(120 if not chk.thorough else 1500):
         cases.append(gen_xfrag_case(g, "x%d" % i))
     # known-finding witnesses (replayed on every run)
@@ -1069,6 +1228,7 @@ def main():
             continue
         std, perm = r_["std"]
         c.std, c.perm = std, perm
+        c.dstd = std
         A = r_["snap"].get("A")
         if not A or A["err"]:
             continue
@@ -1223,12 +1383,34 @@ def main():
     for c in allc:
         r_ = res[c.cid]
         forced = getattr(c, "wkey", None) if getattr(c, "wkey", None) in (KINC, KNSV, KREPRZ, KINH, KMOVREF, KDEREF, KDELREF, KMOVAFF, KREFREPR, KAMB, KNZI, KUNCLEAN) else None
+        oracle = None
+        if not forced and hasattr(c, "A") and not c.perm:
+            need, why = needed_version(r_["snap"]["A"]["lines"], gates)
+            hk = history_key(c, r_["ops"], need)
+            if hk in (KNOREVAL, KSTALE):
+                forced = hk
+            elif hk == KORACLE:
+                oracle = (need, why)
+            seen_mflush = False
+            for i_, cmd_ in enumerate(c.cmds):
+                if cmd_ == "MFLUSH":
+                    seen_mflush = True
+                elif seen_mflush and cmd_.startswith(("ALTERAFFIX ", "NSALTER ")) and any(int(o[0]) == i_ and o[1:] == ["0", "0"] for o in r_["ops"]):
+                    forced = forced or KAFFPAR
+        c.dynforced = forced
 
         def viol(key, desc, rep, found=True, forced=forced):
             return chk.violation(forced if forced else key, desc, rep, found=(found or bool(forced)))
         replay = {"kind": "case", "commands": c.cmds + ["FLUSH", "END"],
                   "how": "feed the commands to harness/C07/rt.c <scratch-dir> (built by vlib.build_harness); compare SNAP A with SNAP B/C"}
         fl = [o for o in r_["ops"]]
+        if oracle:
+            chk.violation(KORACLE, "gd_dirfile_standards accepted Standards Version %d for a database that contains %s, which the parser only reads from "
+                          "Standards Version %d on (the list of conforming versions was not recomputed after the last metadata change), case %s" % (
+                              c.dstd, oracle[1], oracle[0], c.cid), dict(replay, accepted=c.dstd, needed=oracle[0], because=oracle[1]))
+        if forced in (KNOREVAL, KSTALE):
+            need, why = needed_version(r_["snap"]["A"]["lines"], gates)
+            viol(forced, "the database is flushed as Standards Version %d although it contains %s (needs %d)" % (c.dstd, why, need), replay)
         if any(o[1:] == ["-27", "-27"] for o in fl):
             viol(KUNCLEAN, "gd_rename/gd_move of a RAW field of a gzip/lzma-encoded fragment whose data file was only created (never written) fails with "
                  "GD_E_UNCLEAN_DB and leaves the DIRFILE invalid: every later call, gd_metaflush included, returns GD_E_BAD_DIRFILE (case %s)" % c.cid, replay)
@@ -1248,6 +1430,8 @@ def main():
             continue
         A = r_["snap"]["A"]
         for tag in ("B", "C"):
+            if tag == "C" and c.dstd < 5:
+                continue        # below Standards Version 5 a fragment cannot declare its version: GD_PEDANTIC reads it as the newest
             S = r_["snap"].get(tag)
             n_eval += 1
             if S is None:
@@ -1289,6 +1473,10 @@ def main():
             for x, y in zip(la, lb):
                 n_snap += 1
                 if x == y:
+                    continue
+                if x.startswith("R ") and y.startswith("R ") and c.dstd < 6:
+                    viol(KREF5, "below Standards Version 6 no /REFERENCE is written and the parser nominates the LAST RAW field of the fragment "
+                         "(first_raw is overwritten by every field line): the reference field changes from %s to %s on reopen" % (x[2:], y[2:]), dict(replay, reopen=tag))
                     continue
                 if x.startswith("G ") and not x.startswith("G 0 ") and re.sub(r" ref=\S+", "", x) == re.sub(r" ref=\S+", "", y):
                     continue        # which RAW field an included fragment nominates is internal (gd_reference is compared)
@@ -1384,7 +1572,7 @@ def main():
                                   dict(replay, correspondence="parse_line vs _GD_Parse*", line=ln.decode("latin1"), model=lr, impl=Bc[nm][0]), found=False)
     n_fragline = 0
     for (c, kind, key_, body), l in fres:
-        if getattr(c, "flagged", None) or getattr(c, "wkey", None):
+        if getattr(c, "flagged", None) or getattr(c, "wkey", None) or getattr(c, "dynforced", None):
             continue
         replay = {"kind": "case", "commands": c.cmds + ["FLUSH", "END"]}
         n_fragline += 1
